@@ -410,6 +410,17 @@ def history_unit(h):
     h.ensure('second-flight-never-reads-leftovers-of-the-first', True, note=f'leftovers poisoned: {leftovers}')
 
 
+# the callee contracts assumed by the two units above include a frame: a phase of a flight writes the trajectory and its
+# own fields of the per-flight context, and nothing on the builder itself (no memo tables, no reconfigured options).
+# These frames are proved on the real bodies by C02's units; they are obligations of this property too.
+from contracts import C02 as _c02   # noqa: E402
+from pyvc.verify import UNITS as _UNITS   # noqa: E402
+for _u in list(_UNITS.get('C02', [])):
+    if _u.name in ('calc-starting-mass', 'phase-wrappers', 'level-change.climb', 'level-change.descent', 'cruise'):
+        unit('C17', 'callee-frame.' + _u.name, _u.func, replay='contracts.C17:replay', max_paths=_u.max_paths,
+             timeout_ms=_u.timeout_ms)(_u.fn)
+
+
 # ------------------------------------------------------------------------------------------------
 def replay(payload):
     """Native scenarios: a rejected flight must surface its reason and leave the builder usable;
@@ -472,6 +483,67 @@ def replay(payload):
                     break
         except Exception as e:   # noqa
             problems.append(f'flight after one with a given starting mass failed: {type(e).__name__}: {e}')
+        # one builder, two performance models for the same aircraft type (the second with 25 % more cruise fuel flow): the
+        # second flight must be what a fresh builder makes of the second model
+        import copy
+        with open(config.file_location('performance/sample_performance_model.toml'), 'rb') as f:
+            d2 = tomllib.load(f)
+
+        def scale(node):
+            if isinstance(node, dict):
+                if 'cols' in node and 'data' in node and 'fuel_flow' in node['cols']:
+                    j = node['cols'].index('fuel_flow')
+                    node['data'] = [[(v * 1.25 if i == j else v) for i, v in enumerate(row)] for row in node['data']]
+                for v in node.values():
+                    scale(v)
+            elif isinstance(node, list):
+                for v in node:
+                    scale(v)
+        scale(d2)
+        try:
+            pm2 = PerformanceModel.from_data(copy.deepcopy(d2))
+            for iterate in (False, True):
+                hb = LegacyBuilder(options=Options(iterate_mass=iterate, use_weather=False))
+                hb.fly(pm, missions[0])
+                got = hb.fly(pm2, missions[0])
+                ref2 = LegacyBuilder(options=Options(iterate_mass=iterate, use_weather=False)).fly(pm2, missions[0])
+                if got.starting_mass != ref2.starting_mass or not np.array_equal(got.fuel_mass, ref2.fuel_mass):
+                    problems.append(f'{missions[0].label} iterate_mass={iterate}: flown with a second performance model after a flight with the '
+                                    f'first, starting mass {got.starting_mass!r} / fuel differ from a fresh builder ({ref2.starting_mass!r})')
+        except Exception as e:   # noqa
+            problems.append(f'two performance models on one builder: {type(e).__name__}: {e}')
+        # mass iteration: whatever trajectory is returned, its own leftover-fuel residual is within the requested relative
+        # tolerance -- tried with tolerances just below each residual the iteration passes through
+        log = []
+
+        class Recording(LegacyBuilder):
+            def _fly_iteration(self):
+                t, r = super()._fly_iteration()
+                log.append((t, float(r)))
+                return t, r
+        for m in missions[:2]:
+            log.clear()
+            try:
+                Recording(options=Options(iterate_mass=True, use_weather=False, mass_iter_reltol=1e-13, max_mass_iters=8)).fly(pm, m)
+            except Exception:   # noqa
+                pass
+            residuals = [abs(r) for _, r in log]
+            for k, rk in enumerate(residuals[:6]):
+                if rk == 0.0:
+                    continue
+                for tol in (rk * 0.995, rk * 1.005):
+                    log.clear()
+                    try:
+                        t = Recording(options=Options(iterate_mass=True, use_weather=False, mass_iter_reltol=tol, max_mass_iters=12)).fly(pm, m)
+                    except RuntimeError:
+                        continue
+                    except Exception as e:   # noqa
+                        problems.append(f'{m.label}: mass iteration with tolerance {tol!r} failed: {type(e).__name__}: {e}')
+                        continue
+                    own = [r for tt, r in log if tt is t]
+                    if not own or not abs(own[0]) < tol:
+                        problems.append(f'{m.label}: mass iteration with relative tolerance {tol!r} returned a trajectory whose leftover-fuel '
+                                        f'residual is {own[0] if own else None!r}')
         # weather-enabled flights rejected before any weather file was opened: missing weather for the departure date,
         # and an out-of-envelope state at the first climb point
         wb = LegacyBuilder(options=Options(iterate_mass=False, use_weather=True))
